@@ -46,12 +46,17 @@ def main():
         rct, ot = sh(['/venv/bin/python', '-m', 'pytest', '-q', '-p', 'no:cacheprovider', '-x'], env=envt, cwd=scratch)
         out['suite_rc'] = rct
         out['suite_tail'] = ot.strip().split('\n')[-1][-120:]
+        # a private copy of the lake project (with its build products): the checks regenerate Gen/*.lean from the changed source, and
+        # several self-tests may run side by side
+        leandir = os.path.join(scratch, '_lean')
+        sh(['cp', '-r', os.path.join(VERIF, 'lean', 'FFVerif'), leandir])
         for pid in pids:
-            env2 = dict(os.environ, VERIF_REPO=scratch)
+            env2 = dict(os.environ, VERIF_REPO=scratch, VERIF_LEAN_DIR=leandir, VERIF_REPLAY_DIR=os.path.join(scratch, '_replays'),
+                        VERIF_EVIDENCE_DIR=os.path.join(scratch, '_evidence'))
             rc, o = sh([os.path.join(VERIF, 'check'), pid, '--tier', 'quick'], env=env2, cwd=VERIF)
             lines = [l for l in o.split('\n') if l.startswith('VIOLATION') or l.startswith('PASS') or l.startswith('FAIL')]
             detail = None
-            rp = os.path.join(VERIF, 'replays', f'{pid}_quick_{os.environ.get("VERIF_SEED", "0")}.json')
+            rp = os.path.join(scratch, '_replays', f'{pid}_quick_{os.environ.get("VERIF_SEED", "0")}.json')
             if rc == 1 and os.path.exists(rp):
                 d = json.load(open(rp))
                 f = d.get('failure') or {}
@@ -60,8 +65,6 @@ def main():
             out['checks'][pid] = {'rc': rc, 'lines': lines, 'detail': detail}
     finally:
         shutil.rmtree(scratch, ignore_errors=True)
-        # restore the generated Lean files from the clean tree
-        sh(['python3-vt', os.path.join(VERIF, 'harness', 'translate.py')], cwd=VERIF)
     out['caught_by'] = [p for p, v in out['checks'].items() if v['rc'] == 1]
     print(json.dumps(out))
 
